@@ -120,7 +120,7 @@ Inductive meth :=
 | M_uniqueString | M_uniqueInt | M_compact | M_cross | M_merge | M_order | M_orderRev | M_orderLess
 | M_reverse | M_append | M_iir | M_iirCombine | M_visit | M_fsm | M_top | M_skip | M_number | M_present
 | M_set | M_size | M_first | M_single | M_last | M_eval | M_movingWindow | M_movingWindowRemove | M_multiUse
-| M_replaceList
+| M_replaceList | M_replaceMap
 | M_len | M_string | M_trim | M_toLower | M_toUpper | M_contains | M_indexOf | M_split | M_cut
 | M_replace | M_toInt | M_toFloat
 | M_get | M_put | M_isAvail | M_list
@@ -141,7 +141,7 @@ Definition meth_name (m : meth) : name :=
   | M_iir => nm_iir | M_iirCombine => nm_iirCombine | M_visit => nm_visit | M_fsm => nm_fsm | M_top => nm_top
   | M_skip => nm_skip | M_number => nm_number | M_present => nm_present | M_set => nm_set | M_size => nm_size
   | M_first => nm_first | M_single => nm_single | M_last => nm_last | M_eval => nm_eval
-  | M_movingWindow => nm_movingWindow | M_movingWindowRemove => nm_movingWindowRemove | M_multiUse => nm_multiUse | M_replaceList => nm_replaceList
+  | M_movingWindow => nm_movingWindow | M_movingWindowRemove => nm_movingWindowRemove | M_multiUse => nm_multiUse | M_replaceList => nm_replaceList | M_replaceMap => nm_replaceMap
   | M_len => nm_len | M_string => nm_string | M_trim => nm_trim | M_toLower => nm_toLower
   | M_toUpper => nm_toUpper | M_contains => nm_contains | M_indexOf => nm_indexOf | M_split => nm_split
   | M_cut => nm_cut | M_replace => nm_replace | M_toInt => nm_toInt | M_toFloat => nm_toFloat
@@ -168,7 +168,7 @@ Definition string_meths : list (meth * Z) :=
 
 Definition map_meths : list (meth * Z) :=
   [(M_accept, 1); (M_map, 1); (M_list, 0); (M_size, 0); (M_isAvail, -1); (M_get, 1); (M_put, 2);
-   (M_combine, 2); (M_eval, 0); (M_replace, 1)].
+   (M_combine, 2); (M_eval, 0); (M_replace, 1); (M_replaceMap, 1)].
 
 Definition scalar_meths : list (meth * Z) := [(M_string, 0)].
 
@@ -181,7 +181,7 @@ Definition unmodelled_table : list (N * list name) :=
   [(5%N, [nm_iirApply; nm_string; nm_createInterpolation; nm_linearReg;
           nm_binning; nm_binning2d; nm_collectBinning]);
    (3%N, [nm_behind; nm_behindList]);
-   (6%N, [nm_replaceMap; nm_string]);
+   (6%N, [nm_string]);
    (7%N, [nm_args; nm_invoke; nm_string])].
 
 (* the table as (type id, name, arity) triples, to be compared with Generated/ValueMethods.v *)
@@ -333,6 +333,7 @@ Definition run_map (e : entries) (m : meth) (args : list arg) : res pv :=
   | M_get, [a] => with_str a (fun k => okV (mm_get e k))
   | M_put, [k; v] => with_str k (fun k => bind (arg_val v) (fun v => bind (mm_put e k v) (fun r => Ok (PV (VMap r)))))
   | M_replace, [a] => bind (arg_f1 a) (fun f => bind (mm_replace f e) (fun r => Ok (PV (VMap r))))
+  | M_replaceMap, [a] => bind (arg_f1 a) (fun f => okV (f (VMap e)))     (* Map.ReplaceMap: the function applied to the map *)
   | M_combine, [o; a] =>
       bind (arg_f2 a) (fun f =>
       bind (arg_val o) (fun ov => match ov with
